@@ -217,9 +217,9 @@ def include(ctx, module, fns, to_rule):
         ctx.obligations.append(o)
     for k, v in sub.counters.items():
         if isinstance(v, set):
-            ctx.counters[k] |= v
+            ctx.counters[k] = ctx.counters.get(k, set()) | v
         else:
-            ctx.counters[k] += v
+            ctx.counters[k] = ctx.counters.get(k, 0) + v
     ctx.notes.extend(getattr(sub, 'notes', []))
     if errors:
         raise errors[0]
